@@ -33,6 +33,9 @@ type Set struct {
 var failBodies = map[string][]string{
 	"branch-mismatch":    {`{{if $.C0}}<a href="{{end}}x`, `{{if $.C1}}<b>{{else}}<b title="{{end}}y`, `<p {{if $.C0}}title="x{{end}}>`},
 	"range-reentry":      {`{{range $.L0}}<a title="{{end}}`, `<p>{{range $.L1}}<!--{{end}}</p>`, `{{range $.L0}}<textarea>{{end}}`},
+	// the body ends in the state it starts in, but a second iteration must be sanitized differently
+	"range-reentry-same-state": {`<a href="{{range $.L0}}{{.E0}}{{end}}">x</a>`, `<img srcset="{{range $.L0}}{{.E0}}{{end}}">`, `<p dir="{{range $.L1}}{{.E0}}{{end}}">x</p>`, `<a href="/x{{range $.L0}}/{{.E0}}?y=1{{end}}">x</a>`, `<form action="{{range $.L0}}{{.E1}}{{end}}"></form>`},
+	"break-continue":     {`{{range $.L0}}<script>{{if .E0}}{{break}}{{end}}f();</script>{{end}}{{$.S0}}`, `{{range $.L0}}<a {{if .E0}}{{break}}{{end}}title="x">y</a>{{end}}{{$.S0}}`, `{{range $.L0}}<p title="{{if .E1}}{{continue}}{{end}}">x</p>{{end}}`, `{{range $.L1}}{{break}}{{end}}`},
 	"non-text-end":       {`<script>var a = 1;`, `<a href="/x`, `<!-- unfinished`, `<p title='`, `<textarea>abc`, `<style>a{}`, `<b `},
 	"disallowed-position": {`<a href={{$.S0}}>x</a>`, `<p onclick="{{$.S0}}">x</p>`, `<x-foo>{{$.S0}}</x-foo>`, `<p {{$.S0}}="y">x</p>`, `<a unknown="{{$.S1}}">x</a>`, `<object data="{{$.S0}}"></object>`, `<p style=color:{{$.S0}}>`},
 	"unsafe-url-prefix":  {`<a href="javascript:{{$.S0}}">x</a>`, `<a href="java{{$.S0}}">x</a>`, `<a href="{{if $.C0}}/a/{{else}}/b?q={{end}}{{$.S0}}">x</a>`, `<a href="/x y/{{$.S0}}">x</a>`, `<a href="/p?q=%{{$.S0}}">x</a>`, `<a href="/p&amp{{$.S0}}">x</a>`, `<script src="http://h/{{$.S0}}"></script>`, `<a href="{{$.S0}}{{$.S1}}">x</a>`, `<a href="{{$.S0}}:x">y</a>`},
